@@ -20,6 +20,7 @@ import vlib
 KINDS = ("queue", "stream")
 TAG = "rtos"
 TRACE_SPEC = ("RtosTrace.tla", "RtosTrace.cfg")
+SWEEP_ROUNDS = {"quick": "2", "thorough": "12"}       # random sessions per capacity and kind
 
 
 def _state_key(t, which):
@@ -49,7 +50,8 @@ def _dedup(gen):
 def model(kind, tier):
     consts = {}
     if tier == "thorough":
-        consts = {"queue": {"MaxHist": "5"}, "stream": {"MaxHist": "6"}}[kind]
+        consts = {"queue": {"Caps": "{1, 2, 3, 4}", "MaxHist": "5"},
+                  "stream": {"Caps": "{1, 2, 3, 4, 5}", "MaxRead": "5", "MaxHist": "6"}}[kind]
     return vlib.tlc_mc("Rtos.tla", "Rtos_%s.cfg" % kind, "%s_mc_%s_%s" % (TAG, kind, tier), workers=3, heap="2g",
                        constants=consts or None, timeout=900)
 
@@ -70,7 +72,7 @@ def _execute(bins, impl, sps, tier, sweep):
         tasks.append(([bins[impl], "replay", k, sps[k]],
                       os.path.join(d, "%s_%s_%s_replay_%s.ndjson" % (TAG, impl, tier, k))))
         if sweep:
-            tasks.append(([bins[impl], "sweep", k], os.path.join(d, "%s_%s_%s_sweep_%s.ndjson" % (TAG, impl, tier, k))))
+            tasks.append(([bins[impl], "sweep", k, SWEEP_ROUNDS[tier]], os.path.join(d, "%s_%s_%s_sweep_%s.ndjson" % (TAG, impl, tier, k))))
     res = vlib.run_parallel(tasks, par=4)
     unsupported = sorted({l for _, err in res for l in err.splitlines() if l.startswith("UNSUPPORTED")})
     merged = os.path.join(d, "%s_%s_%s_all.ndjson" % (TAG, impl, tier))
@@ -126,7 +128,7 @@ def pipeline(tier, rep, calibrate=True):
                                     % (dv["kind"], json.dumps(dv.get("ev"))[:600], json.dumps(dv.get("expected"))[:400]))
         if cuns:
             raise vlib.ModelFailure("calibration build cannot drive: %s" % cuns)
-    rep.add_tv("Rtos", tv, nscripts + 8,
+    rep.add_tv("Rtos", tv, nscripts + 4 * int(SWEEP_ROUNDS[tier]),
                "every exported edge of both kinds on the etl wrappers over the kernel double + seeded random sessions")
     rep.add_tv("Rtos", stv, nscripts, "the same scripts on the etl wrappers over the repository's no-op stubs")
     m = rep.cov["modules"]["Rtos"]
